@@ -442,7 +442,9 @@ def tie(tier, seed, replay):
                     samples.append(dict(mutation=c["mutation"], kind=k, text=A.rust_text(pr)[:600], impl=iv, model=mv, spec=sorted(want)))
     # rustc level
     rjobs = rustc_sample(tier, seed, [c for c in cases if "info" in c]) if not replay else (replay_rustc or [])
-    rres = run_rustc("c15_%s" % tier, rjobs) if rjobs else []
+    # crates of a run against a scratch worktree (VERIF_REPO) get their own directory: a run on /repo at the same time must not overwrite them
+    rtag = "c15_%s" % tier if lib.REPO == "/repo" else "c15_%s_%s" % (tier, __import__("hashlib").sha1(lib.REPO.encode()).hexdigest()[:8])
+    rres = run_rustc(rtag, rjobs) if rjobs else []
     rdist = {}
     model_by_id = {c["id"]: m for c, m in zip(cases, model)}
     for r in rres:
